@@ -4,7 +4,7 @@ import numpy as np
 from .. import scenes, obs, oracles
 
 ID, NUM, LEVEL = 'C18', 18, 'exploration'
-RULE = ('Evaluation = one argument of the real wmo.perc2okta / okta2code / height2code. perc2okta(100*n/m and '
+RULE = ('(The small deterministic families are repeated in a worker under python -O, where asserts and __debug__ blocks are stripped.) ' 'Evaluation = one argument of the real wmo.perc2okta / okta2code / height2code. perc2okta(100*n/m and '
         'n/m*100): 0 iff n=0, 8 iff n=m, else the integer nearest to 8n/m (exact integer arithmetic; either '
         'neighbour at an exact half) clipped to 1..7, non-decreasing in n, scalar == array form, independent of the numeric dtype of the input (8/16/32/64-bit (un)signed ints, float16/32/64), input array left untouched, unaffected by real pipeline runs made earlier in the process and by the logging level (DEBUG), values outside '
         '[0,100] (scalar or one array element) -> AmpycloudError. okta2code: table for 0..9, other ints and '
